@@ -187,7 +187,7 @@ Proof.
   - intros _. constructor.
 Qed.
 
-Lemma lite_view c c' : lite c c' -> view c' = view c.
+Lemma lite_view c c' : lite cfg c c' -> view c' = view c.
 Proof. intros [H _]. unfold same_core in H. decompose [and] H. unfold view. congruence. Qed.
 
 (* ---------- closure under the stream-loop moves ---------- *)
@@ -339,6 +339,9 @@ Proof.
     + rewrite (slocw_count_hdr _ _ F2), (slocw_length _ _ F2), count_hdr_app. lia.
     + eapply sloc_Forall_run; [exact F2'|]. apply Forall_app. split; assumption.
   - (* panic *) eapply SI_view; [|exact H]. reflexivity.
+  - (* post: the loop has ended, nothing SI looks at changes *)
+    destruct H1 as [SC _]. unfold same_core in SC. destruct SC as (S1 & S2 & S3 & S4 & S5 & S6 & S7 & S8 & S9 & S10 & S11 & S12 & S13 & S14 & S15).
+    eapply SI_view; [|exact H]. unfold view. rewrite S1, S2, S3, S4, S5, S6, S12. reflexivity.
 Qed.
 
 (* ---------- closure under all moves ---------- *)
@@ -366,23 +369,14 @@ Lemma SI_omvs pc a b : omvs hstate pc a b -> SI a -> SI b.
 Proof. intros M. induction M; intro HS; [assumption|]. eauto using SI_omv. Qed.
 
 (* ---------- every event list ---------- *)
-Hypothesis HQ_new : forall id w k t, Q (set_orig_started (new_stream id w) k t).
-Hypothesis HQ_closed : forall s, Q s -> Q (set_state s SClosed).
-Hypothesis HQ_handle_state : forall fr s, Q s -> Q (handle_state fr s).
-Hypothesis HQ_weReset : forall s, Q s -> Q (set_weReset s).
-Hypothesis HQ_flags : forall s a b d, Q s -> Q (set_flags s a b d).
-Hypothesis HQ_window : forall s w, Q s -> Q (set_window s w).
-Hypothesis HQ_snd : forall s n, Q s -> Q (set_snd s n).
-Hypothesis HQ_frame : forall c s fr c' s' e, Q s -> handle_frame dec_field cfg c s fr = (c', s', e) ->
-  (forall code, e <> Some (EGoAway code)) -> Q s'.
+Hypothesis HQc : Qclosed hstate dec_field cfg Q.
 
 Notation step := (step dec_field enc_field enc_set_max cfg).
 Notation run := (run dec_field enc_field enc_set_max cfg).
 
 Theorem SI_step c e : SI c -> SI (step c e).
 Proof.
-  apply (inv_step hstate dec_field enc_field enc_set_max cfg Q HQ_new HQ_closed HQ_handle_state HQ_weReset
-           HQ_flags HQ_window HQ_snd HQ_frame SI).
+  apply (inv_step hstate dec_field enc_field enc_set_max cfg Q HQc SI).
   - apply SI_ids_ok.
   - apply SI_gmv.
 Qed.
@@ -396,8 +390,7 @@ Proof. intro R. induction R; [apply SI_init | apply SI_step; assumption]. Qed.
 (* every step is a sequence of moves (for relational facts) *)
 Theorem SI_gmvs_step c e : SI c -> gmvs (parser_code e) c (step c e).
 Proof.
-  intro H. apply (gmvs_step hstate dec_field enc_field enc_set_max cfg Q HQ_new HQ_closed HQ_handle_state HQ_weReset
-                    HQ_flags HQ_window HQ_snd HQ_frame). apply SI_ids_ok. assumption.
+  intro H. apply (gmvs_step hstate dec_field enc_field enc_set_max cfg Q HQc). apply SI_ids_ok. assumption.
 Qed.
 
 End Slots.
@@ -417,11 +410,14 @@ Notation sconn := (sconn hstate).
 
 Definition QT (s : stream) : Prop := True.
 
+Lemma QT_closed : Qclosed hstate dec_field cfg QT.
+Proof. constructor; intros; try exact I. destruct e as [[| |]|]; exact I. Qed.
+
 Theorem SI_run_T evs : SI cfg QT (run evs).
-Proof. apply SI_run; intros; exact I. Qed.
+Proof. apply SI_run. apply QT_closed. Qed.
 
 Theorem SI_reachable_T c : reachable dec_field enc_field enc_set_max cfg h0 c -> SI cfg QT c.
-Proof. apply SI_reachable; intros; exact I. Qed.
+Proof. apply SI_reachable. apply QT_closed. Qed.
 
 (* handlers running for the connection: those of table streams and those of abandoned streams *)
 Definition running (c : sconn) : Z := (count_running (sc_strms c) + Z.of_nat (length (sc_gone c)))%Z.
